@@ -93,7 +93,8 @@ def rule_declarations(ctx):
     ab = printers.display_impl(fx, "tptp", "Atom")
     ap = printers.evaluate(fx, ab)
     lits = [norm(item[1]) for _, _, item in ap.out if item[0] == "write"]
-    ctx.add("DECL", "atom-usage", lits == ["{}", "({}", ", {}", ")"], ctx.site(ab), "an atom is printed as symbol(args) with one general-sorted argument per term, bare symbol for no terms: %s" % lits)
+    # the first argument and then `, ` + argument for the others, or every argument with `, ` before all but the first (a joined iterator)
+    ctx.add("DECL", "atom-usage", lits in (["{}", "({}", ", {}", ")"], ["{}", "(", ", ", "{}", ")"]), ctx.site(ab), "an atom is printed as symbol(args) with one general-sorted argument per term, bare symbol for no terms: %s" % lits)
     pr = fx.fn("sigma_0::Atom::predicate")
     v = sym.Eval(fx, inline_depth=0).function(pr)
     ok = v == ("ctor", "Predicate", (("arity", ("call", "Vec::len", (("place", "self.terms"),))), ("symbol", ("place", "self.predicate_symbol"))))
